@@ -39,6 +39,9 @@ QUAL = ['Quality', 'LinkQuality', 'ReactionRate', 'Concentration', 'BulkReaction
         'SourceMassInject', 'WaterAge']
 
 
+# appended to RULE in the evidence (vlib/runner.py)
+RULE_ADDENDUM = 'Added in round 5: dictionaries with unordered and integer keys.'
+
 def n_cases(tier):
     return len(FLOW) * (len(HYD) + len(QUAL))
 
